@@ -55,6 +55,26 @@ Fixpoint obs_run (s : sys M) (reps : list (m_pre M)) (ops : list op) : list xobs
   end.
 End Run.
 
+(* the same for scripts with context / image slots *)
+Section RunS.
+Variable M : machine.
+Fixpoint obs_run_s (x : sst M) (reps : list (m_pre M)) (ops : list sop) : list xobs :=
+  match ops with
+  | [] => []
+  | o :: rest =>
+    match sstep M x o with
+    | None => [XPanic]
+    | Some (x', mo) =>
+      match mo with
+      | MNone _ => XNone :: obs_run_s x' reps rest
+      | MVal _ v => XVal v :: obs_run_s x' reps rest
+      | MPre _ p => let '(c, reps') := cls_of M p reps 0 in XCls c :: obs_run_s x' reps' rest
+      | MIdx _ i => XIdx i :: obs_run_s x' reps rest
+      end
+    end
+  end.
+End RunS.
+
 Definition machine_of (mid sm : N) : machine :=
   if mid =? 0 then kvtest_m sm else if mid =? 1 then ckv_m sm else disk_m sm.
 
@@ -65,6 +85,11 @@ Definition model_obs (mid sm : N) (ops : list op) : list xobs :=
 Definition kcase (mid sm : N) (ops : list op) (obs : list xobs) : bool :=
   list_eqb xobs_eqb (model_obs mid sm ops) obs.
 
+Definition model_obs_s (mid sm : N) (ops : list sop) : list xobs :=
+  obs_run_s (machine_of mid sm) (sst0 (machine_of mid sm)) [] ops.
+Definition scase (mid sm : N) (ops : list sop) (obs : list xobs) : bool :=
+  list_eqb xobs_eqb (model_obs_s mid sm ops) obs.
+
 (* first disagreeing position (diagnostics only) *)
 Fixpoint first_diff (i : N) (a b : list xobs) : option N :=
   match a, b with
@@ -74,6 +99,9 @@ Fixpoint first_diff (i : N) (a b : list xobs) : option N :=
   end.
 Definition kdiff (mid sm : N) (ops : list op) (obs : list xobs) : option N :=
   first_diff 0 (model_obs mid sm ops) obs.
+
+Definition sdiff (mid sm : N) (ops : list sop) (obs : list xobs) : option N :=
+  first_diff 0 (model_obs_s mid sm ops) obs.
 
 (* the UTF-8 coercion alone: used to cross-check the python copy of the signature classifier *)
 Definition ucase (s expect : bytes) (valid : bool) : bool :=
